@@ -41,6 +41,12 @@ CLAIMS = {
             "7 C10", "function contracts + books lemma (Verus)"),
     "C14": ("Verus proves update_members asserts the admin before any write and returns diffs that form a chain of single-member writes with the true previous and new weight of exactly the touched addresses (ghost state sequence), that execute_update_members / update_membership emit exactly one MemberChangedHook message per registered hook carrying those diffs (none when nothing changed), and that UpdateAdmin/AddHook/RemoveHook are wired to the admin-checked cw-controllers functions (assumed contracts).",
             "7 C14", "function contracts + ghost diff chain + assumed cw-controllers contracts (Verus)"),
+    "C11": ("Verus proves whole-state step relations for every ics20 entry point that touches a channel balance: transfer (+amount, escrow attached or received via cw20 Receive), packet receive (voucher must carry the counterparty port/channel prefix, checked -amount, exactly one payout sub-message of the amount, reply on error), reply(Err) (+amount back), error ack / timeout (checked -amount, exactly one refund to the sender); lemmas give the per-(channel, denom) delta of each and that a reduction needs a covering balance, so payouts never exceed escrow. Real token holdings enter only through A4. parse_voucher_denom / Amount::from_parts / Amount::denom are assumed leaves (string code).",
+            "7 C11", "function contracts + per-channel accounting lemmas (Verus)"),
+    "C12": ("Verus proves ibc_packet_receive never returns Err, that a success ack implies the full receive step and an error ack implies storage unchanged and no sub-message (fix 2af7d5b), that execute_transfer emits exactly one SendPacket carrying amount (<= u64::MAX), denom, true sender, receiver, memo and timeout = block time + requested/default seconds, and the exact balance deltas of ack/timeout/reply.",
+            "7 C12", "function contracts on state and emitted messages (Verus)"),
+    "C18": ("Verus proves Allow requires the governance address and only adds or loosens an entry, no entry point removes an allow-list entry, transfer of a cw20 needs an entry or a default limit, every payout/refund sub-message carries gas_limit_for(token) (entry limit, else default), migrate keeps the allow list and sets but never unsets the default; lemma: per call an entry changes only by Allow from governance, limits only loosen.",
+            "7 C18", "function contracts + monotonicity lemma (Verus)"),
 }
 
 NOT_YET = "machinery for this property is not built yet in this round (see DESIGN.md section 11 build order); not claimed until its unit verifies on the unchanged tree"
